@@ -31,6 +31,17 @@ def base_env():
     env.add_class('AdminJob', fields={'settings': 'JobSettings', 'bert_e': 'BertEObj', 'project_repo': 'HostRepo',
                                       'git': 'GitNS'})
     env.ref_attr_hooks[('Br', '@dummy')] = None
+
+    def factory(I, repo, name):
+        # as in specs/gitmodel.py, plus: in the queue jobs the q/ names found on the remote are well formed
+        nt = I.term_of(name)
+        rec = smt.App('gwf.recognized', [nt], smt.BOOL)
+        if I.ghost.get('q_names_recognized'):
+            rec = smt.Or(rec, smt.StrPrefixOf(smt.StrC('q/'), nt))
+        I.require_safe(rec, lambda: I.make_exception(X.UnrecognizedBranchPattern, [name], {}),
+                       'UnrecognizedBranchPattern')
+        return gitmodel.br(I, name)
+    env.fn_models[B.branch_factory] = factory
     env.attr_models[('GitNS', 'repo')] = ModelMethod(lambda I, self: I.ghost['repo'], 'job.git.repo')
 
     @env.model('JobSettings', '__contains__', trusted='SettingsDict membership')
@@ -186,14 +197,9 @@ def setup_for(mode):
                 queued = smt.Gt(smt.SeqLen(I2.ghost['queued_prs'].t), smt.IntC(0))
                 return smt.Not(smt.And(use_queue, plain_dev, older, queued))
             I.ghost['queue_guard'] = queue_guard
-        if mode in ('delete_queues', 'rebuild_queues'):
-            # the q/ branches on the remote are Bert-E's own, well-formed queue branches (C18)
-            rn = I.ghost['remote_names'].t
-            i = smt.fresh_bound('i', smt.INT)
-            I.assume(smt.ForAll([i], smt.Implies(
-                smt.And(smt.Le(smt.IntC(0), i), smt.Lt(i, smt.SeqLen(rn)),
-                        smt.StrPrefixOf(smt.StrC('q/'), smt.SeqNth(rn, i))),
-                smt.App('gwf.recognized', [smt.SeqNth(rn, i)], smt.BOOL))))
+        # the q/ branches on the remote are Bert-E's own, well-formed queue branches (C18): branch_factory
+        # recognises them (stated in the factory model below, without a quantifier)
+        I.ghost['q_names_recognized'] = mode in ('delete_queues', 'rebuild_queues')
     return setup
 
 
